@@ -7,6 +7,7 @@ assertions; (iii) boundary recorder at formula level (DATEVALUE, N, DAYS, +, -, 
 of serials) judged by a model built only on datetime.date.toordinal.
 """
 import datetime
+import math
 
 from ..runner import BaseCheck
 from ..oracle import BASE_ORD, serial_of, date_of_serial, is_num, close, dt_close
@@ -238,6 +239,33 @@ class Check(BaseCheck):
                 self.expect_is(rec, e, '%s%s%s' % (A, op, B), exp, 'DATE%sDATE' % op)
             rec.sample({'formulas': ['%s-%s' % (B, A), 'N(%s)' % A]})
             self.with_time_of_day(rec, e, rnd)
+            self.same_serial_everywhere(rec, e, rnd)
+
+    def same_serial_everywhere(self, rec, e, rnd):
+        """whatever the serial of a date-time is (before 1 March 1900 it is the library's own), N, DATEVALUE, DAYS(d,0) and the comparison
+        operators report the same one"""
+        k = rnd.random()
+        if k < 0.35:
+            day = D(1900, 1, 1) + datetime.timedelta(days=rnd.choice([0, 0, 0, 1, 30, 58, 59]))
+        elif k < 0.5:
+            day = D(1900, 3, 1) + datetime.timedelta(days=rnd.randint(0, 3))
+        else:
+            day = D.fromordinal(rnd.randrange(ORD0, ORDN))
+        d = day + datetime.timedelta(seconds=rnd.choice([0, 1, 43200, 86399, rnd.randrange(86400)]))
+        e.bind(d_x=d)
+        n = e.val('N(d_x)')
+        rec.case()
+        if not is_num(n):
+            rec.violation('C13/formula:N(date-time)-not-a-number' + self.where(day), d_x=d, got=n)
+            return
+        dv, dz = e.val('DATEVALUE(d_x)'), e.val('DAYS(d_x,0)')
+        e.bind(n_x=n)
+        eq, le, ge = e.val('d_x=n_x'), e.val('d_x<=n_x'), e.val('d_x>=n_x')
+        whole = math.floor(n)
+        ok = is_num(dv) and (abs(dv - n) < 1e-7 or dv == whole) and is_num(dz) and (abs(dz - n) < 1e-7 or dz == whole) and eq is True and le is True and ge is True
+        if not ok:
+            rec.violation('C13/formula:N-DATEVALUE-DAYS-and-comparisons-disagree-on-the-serial' + self.where(day), d_x=d, N=n, DATEVALUE=dv, DAYS_from_0=dz, equals_N=eq, le=le, ge=ge)
+        rec.nt(('same-serial', d.isoformat()))
 
     def with_time_of_day(self, rec, e, rnd):
         """the same serial (now with its time-of-day fraction) seen through N, DATEVALUE, DAYS, - and the comparisons, for
